@@ -287,6 +287,15 @@ func (c *Ctx) result() *shardResult {
 
 const VerifDir = "/verif"
 
+// OutDir is where a run writes its evidence and replay files: /verif, or $VERIF_OUT when the checker is
+// pointed at a scratch copy of the repository (seeded-change runs must not overwrite committed evidence).
+func OutDir() string {
+	if d := os.Getenv("VERIF_OUT"); d != "" {
+		return d
+	}
+	return VerifDir
+}
+
 type Finding struct {
 	Property  string `json:"property"`
 	Signature string `json:"signature"`
@@ -435,7 +444,7 @@ func drive(ck *Check, tier string, seed int64) int {
 		return 2
 	}
 	defer os.RemoveAll(tmp)
-	os.RemoveAll(filepath.Join(VerifDir, "replays", ck.ID)) // replay files belong to the run that wrote them
+	os.RemoveAll(filepath.Join(OutDir(), "replays", ck.ID)) // replay files belong to the run that wrote them
 	results := make([]*shardResult, n)
 	errs := make([]string, n)
 	var wg sync.WaitGroup
@@ -550,7 +559,7 @@ func drive(ck *Check, tier string, seed int64) int {
 				knownLines = append(knownLines, fmt.Sprintf("KNOWN-FINDING: property=%s %s [%s] (%d cases)", ck.ID, f.What, sg, v.Count))
 			}
 		}
-		dir := filepath.Join(VerifDir, "replays", ck.ID)
+		dir := filepath.Join(OutDir(), "replays", ck.ID)
 		os.MkdirAll(dir, 0o755)
 		path := filepath.Join(dir, sanitize(sg)+".json")
 		b, _ := json.MarshalIndent(v, "", " ")
@@ -613,8 +622,8 @@ func drive(ck *Check, tier string, seed int64) int {
 		"violations":  nviol,
 	}
 	b, _ := json.MarshalIndent(ev, "", " ")
-	os.MkdirAll(filepath.Join(VerifDir, "evidence"), 0o755)
-	if err := os.WriteFile(filepath.Join(VerifDir, "evidence", ck.ID+".json"), b, 0o644); err != nil {
+	os.MkdirAll(filepath.Join(OutDir(), "evidence"), 0o755)
+	if err := os.WriteFile(filepath.Join(OutDir(), "evidence", ck.ID+".json"), b, 0o644); err != nil {
 		fmt.Fprintln(os.Stderr, err)
 		return 2
 	}
